@@ -50,11 +50,13 @@ namespace occa {
     if (!modeMemory) {
       return;
     }
-    modeMemory->removeMemoryRef(this);
+    // Whether this was the last reference is decided together with its
+    // removal: the object may be gone as soon as another thread removes its own
+    const bool needsFree = modeMemory->removeMemoryRef(this);
 #ifdef LIBOCCA_OCCA_VERIF
     verif::yield(verif::ptAfterRemoveMemoryRef);
 #endif
-    if (modeMemory->modeMemory_t::needsFree()) {
+    if (needsFree) {
       delete modeMemory;
       modeMemory = NULL;
     }
